@@ -976,6 +976,9 @@ package connect
 //@   tags C04, C06, C11
 //@   requires into != nil
 //@   assigns mapof(into), mapvals(into)
+//@   loop 1:
+//@     invariant true
+//@     assigns mapof(into), mapvals(into)
 
 //@ func (*connectStreamingUnmarshaler).Trailer(u) res
 //@   tags C04, C06
